@@ -299,6 +299,24 @@ fn updates_at_full_pool(rep: &mut Report, b: &mut Bench, mode: &str) {
     let upd = |key: &'static str, val: &'static str| {
         move |p: &mut Pkg| p.update_rows(msi::Update::table("S").set("V", msi::Value::from(val)).with(msi::Expr::col("K").eq(msi::Expr::string(key))))
     };
+    // a cell that holds NULL gets a string nobody has pooled yet: needs a new entry
+    let r = b.step("update of a null cell to a new string at the pool limit", false, upd("s00010", "brand new 0"));
+    if !expect(rep, "pool-65535", mode, "update null cell -> new string (needs a new entry)", r, Some(Outcome::Err)) {
+        return;
+    }
+    // the empty string is stored as null: it never needs an entry
+    let r = b.step("update of a null cell to the empty string at the pool limit", false, upd("s00011", ""));
+    if !expect(rep, "pool-65535", mode, "update null cell -> empty string (needs no entry)", r, Some(Outcome::Ok)) {
+        return;
+    }
+    let r = b.step("update of a string cell to the empty string at the pool limit", false, upd("zr1", ""));
+    if !expect(rep, "pool-65535", mode, "update shared -> empty string (needs no entry)", r, Some(Outcome::Ok)) {
+        return;
+    }
+    let r = b.step("update back to the shared string at the pool limit", false, upd("zr1", "shared"));
+    if !expect(rep, "pool-65535", mode, "update empty -> existing string", r, Some(Outcome::Ok)) {
+        return;
+    }
     let r = b.step("update of a shared string to a new string at the pool limit", false, upd("zr1", "brand new 1"));
     if !expect(rep, "pool-65535", mode, "update shared -> new string (needs a new entry)", r, Some(Outcome::Err)) {
         return;
@@ -568,6 +586,40 @@ fn validation_row_limit(rep: &mut Report) {
     let _ = ok;
 }
 
+/// Cell strings around the 16-bit length field of a pool entry (65,535 bytes and its neighbours) are within
+/// every limit: accepted, and the saved file reads back the same.
+fn string_length_boundary(rep: &mut Report) {
+    let (limit, mode) = ("string-length-65535", "cells");
+    let mut b = Bench::new();
+    b.pkg
+        .as_mut()
+        .unwrap()
+        .create_table("Long", vec![msi::Column::build("K").primary_key().string(8), msi::Column::build("V").nullable().string(0)])
+        .expect("create Long");
+    for (i, len) in [65_534usize, 65_535, 65_536, 65_537, 131_071].iter().enumerate() {
+        let key = format!("k{}", i);
+        let text = format!("{}{}", i, "x".repeat(len - 1));
+        let r = b.step(&format!("insert of a {}-byte string followed by short ones", len), false, move |p| {
+            p.insert_rows(msi::Insert::into("Long").row(vec![msi::Value::Str(key.clone()), msi::Value::Str(text)]).row(vec![msi::Value::Str(format!("{}z", key)), msi::Value::from("short")]))
+        });
+        if !expect(rep, limit, mode, &format!("{} bytes", len), r, Some(Outcome::Ok)) {
+            return;
+        }
+    }
+    // the same under a single-byte code page with text that is longer in UTF-8 than encoded (and vice versa)
+    b.pkg.as_mut().unwrap().set_database_codepage(msi::CodePage::Windows1252);
+    for (i, n) in [32_767usize, 32_768, 40_000, 65_535].iter().enumerate() {
+        let key = format!("e{}", i);
+        let text = "é".repeat(*n);
+        let r = b.step(&format!("insert of {} x 'é' under code page 1252", n), false, move |p| {
+            p.insert_rows(msi::Insert::into("Long").row(vec![msi::Value::Str(key.clone()), msi::Value::Str(text)]).row(vec![msi::Value::Str(format!("{}z", key)), msi::Value::from("after")]))
+        });
+        if !expect(rep, limit, mode, &format!("{} two-byte characters under a single-byte page", n), r, Some(Outcome::Ok)) {
+            return;
+        }
+    }
+}
+
 fn name_limits(rep: &mut Report) {
     let mut b = Bench::new();
     let kcols = || vec![msi::Column::build("K").primary_key().int16()];
@@ -668,6 +720,7 @@ pub fn run(ctx: &Ctx) -> Report {
     jobs.push(("pool-65535", "reference-count-overflow-at-full-pool"));
     jobs.push(("catalog-rows-65536", "create-table"));
     jobs.push(("catalog-rows-65536", "validation-rows"));
+    jobs.push(("string-length-65535", "cells"));
     if let Some((l, m)) = &replay_only {
         jobs.retain(|(jl, jm)| (jl == l || (*jl == "names" && (l == "name-31-units" || l == "table-name" || l == "column-name"))) && (jm == m || *jl == "names" || *jl == "columns-32"));
     }
@@ -682,6 +735,7 @@ pub fn run(ctx: &Ctx) -> Report {
                 "columns-32" => columns_limit(&mut rep),
                 "names" => name_limits(&mut rep),
                 "rows-65536" => row_limit(&mut rep, mode),
+                "string-length-65535" => string_length_boundary(&mut rep),
                 "catalog-rows-65536" if *mode == "validation-rows" => validation_row_limit(&mut rep),
                 "catalog-rows-65536" => catalog_row_limit(&mut rep),
                 _ => pool_limit(&mut rep, mode),
